@@ -10,6 +10,7 @@ export const TAG_FORMS = [
   { form: 'pattern', name: 'myWidget' },
   { form: 'pattern', name: 'X-Panel' },
   { form: 'pattern', name: '_widget' },
+  { form: 'patternBound', name: 'MyWidget' }, { form: 'patternBound', name: 'Widget' },
   { form: 'importDefault' }, { form: 'importNamed' }, { form: 'constAlias' },
   { form: 'member1' }, { form: 'member2' },
   // user bindings named like identifiers the transform generates, and names that merely start with Fragment
@@ -26,6 +27,8 @@ export function makeTag(b, tf) {
     case 'html': return { kind: 'html', name: tf.name, src: tf.name };
     case 'svg': return { kind: 'svg', name: tf.name, src: tf.name };
     case 'pattern': return { kind: 'maybeCustom', name: tf.name, src: tf.name };
+    // a name that a pattern matches AND that is bound in the module
+    case 'patternBound': { b.importDefault('probe:C0', tf.name); return { kind: 'maybeCustom', name: tf.name, src: tf.name, i: b.leaf(tf.name) }; }
     case 'importDefault': { b.importDefault('probe:C0', 'C0'); return { kind: 'bound', src: 'C0', i: b.leaf('C0') }; }
     case 'importNamed': { b.importNamed('probe:lib', 'N1'); return { kind: 'bound', src: 'N1', i: b.leaf('N1') }; }
     case 'constAlias': {
@@ -52,7 +55,7 @@ export function makeTag(b, tf) {
 }
 
 export const ATTR_KINDS = [
-  'strPlain', 'strEmpty', 'strInner', 'strMultiline', 'strTab', 'strCR', 'strEdges', 'strNbsp', 'strBackslash', 'strEntity', 'valueless',
+  'vLikeName', 'strExprWs', 'strPlain', 'strEmpty', 'strInner', 'strMultiline', 'strTab', 'strCR', 'strEdges', 'strNbsp', 'strBackslash', 'strEntity', 'valueless',
   'identBound', 'identUnbound', 'member', 'call', 'num', 'strExpr', 'template', 'boolNull', 'undef',
   'arrow', 'objConst', 'objDyn', 'arrDyn', 'cond', 'jsxEl', 'jsxElBraced', 'namespaced',
   'spreadIdent', 'spreadObjLit', 'spreadCall',
@@ -89,6 +92,10 @@ export function makeAttr(b, rng, kind, st) {
     return { ...A.attr(name, { k: 'leaf', i, src }), kind, ...meta };
   };
   switch (kind) {
+    // plain attributes whose name merely starts with v (not `v-` / `vUpper`): never directives
+    case 'vLikeName': { const cands = ['v2', 'v_id', 'v$x', 'vid', 'v', 'v1-a'].filter((x) => !st.usedNames.has(x)); if (!cands.length) return null; const name = rng.pick(cands); st.usedNames.add(name); return rng.bool() ? { ...A.attr(name, { k: 'str', raw: `vl${st.nameCounter++}` }), kind, dynamic: false } : leafAttr(name, b.global({ k: 'sent' }), { dynamic: true }); }
+    // a string literal written as an expression keeps its line breaks, tabs and blanks
+    case 'strExprWs': return leafAttr(plain(), rng.pick(['"line 1\\n   line 2"', '"a\\tb"', '"  padded  "', '"x\\r\\n y"', "'single\\n quoted'"]), { dynamic: false });
     case 'strPlain': return { ...A.attr(plain(), { k: 'str', raw: `v${st.nameCounter}` }), kind, dynamic: false };
     case 'strEmpty': return { ...A.attr(plain(), { k: 'str', raw: '' }), kind, dynamic: false };
     case 'strInner': return { ...A.attr(plain(), { k: 'str', raw: 'a  b c' }), kind, dynamic: false };
